@@ -129,6 +129,34 @@ func newWorld(t *testing.T) *world {
 		t.Fatalf("create funtoken (erc20): %v", err)
 	}
 	w.ercDenom = r2.FuntokenMapping.BankDenom
+	// balances that make the mutating FunToken methods succeed for every caller used by the driver:
+	// hostile ERC20 minted to the callers, part of it already sent to the bank side (so that the
+	// ERC20-born denom has supply), and some ucoin converted to its ERC20
+	callers := []gethcommon.Address{deps.Sender.EthAddr, fwdCall, fwdCallCode, fwdDelegate, fwdStatic}
+	{
+		sdb := deps.EvmKeeper.NewStateDB(deps.Ctx, statedb.NewEmptyTxConfig(gethcommon.Hash{}))
+		evmObj := deps.EvmKeeper.NewEVM(deps.Ctx, evmtest.MOCK_GETH_MESSAGE, deps.EvmKeeper.GetEVMConfig(deps.Ctx), evm.NewNoOpTracer(), sdb)
+		must := func(what string, err error) {
+			if err != nil {
+				t.Fatalf("%s: %v", what, err)
+			}
+		}
+		big1e9 := big.NewInt(1_000_000_000)
+		for _, c := range callers {
+			in, _ := embeds.SmartContract_ERC20Minter.ABI.Pack("mint", c, big1e9)
+			_, _, err := evmObj.Call(vm.AccountRef(deps.Sender.EthAddr), w.ercErc20, in, 5_000_000, big.NewInt(0))
+			must("mint hostile erc20", err)
+		}
+		for _, c := range callers {
+			in, _ := embeds.SmartContract_FunToken.ABI.Pack("sendToBank", w.ercErc20, big.NewInt(1_000_000), eth.EthAddrToNibiruAddr(c).String())
+			_, _, err := evmObj.Call(vm.AccountRef(deps.Sender.EthAddr), precompileAddrs[0], in, 5_000_000, big.NewInt(0))
+			must("sendToBank setup", err)
+			in, _ = embeds.SmartContract_FunToken.ABI.Pack("sendToEvm", w.coinDenom, big.NewInt(100_000), c.Hex())
+			_, _, err = evmObj.Call(vm.AccountRef(deps.Sender.EthAddr), precompileAddrs[0], in, 5_000_000, big.NewInt(0))
+			must("sendToEvm setup", err)
+		}
+		must("commit", sdb.Commit())
+	}
 	// wasm contract
 	bz, err := os.ReadFile(filepath.Join(repoRoot(), "x/evm/precompile/test/hello_world_counter.wasm"))
 	if err != nil {
